@@ -28,7 +28,7 @@ var Keys = []string{"a", "b", "c", "d", "k", "v", "é", " ", "let", ""}
 var plainKeys = []string{"a", "b", "c", "d", "k", "v"}
 
 // Strs is the string palette: mixed encoded widths, repeats, empties.
-var Strs = []string{"", "a", "b", "ab", "ba", "abc", "aa", "abab", "é", "aé", "éa", "aéb", "日本", "a日b", "😀", "a😀b", "é", "�", " a ", "A", "Ab", "10", "2", "x,y,z", "a-b-a", "éé😀éé", "NaN", "Infinity", "-inf", "1e400", "1_0", "0x10", "null", "true"}
+var Strs = []string{"", "a", "b", "ab", "ba", "abc", "aa", "abab", "é", "aé", "éa", "aéb", "日本", "a日b", "😀", "a😀b", "é", "�", " a ", "A", "Ab", "10", "2", "x,y,z", "a-b-a", "éé😀éé", "NaN", "Infinity", "-inf", "1e400", "1_0", "0x10", "null", "true", "\u0080", "a\u0080b", "\u07ff\u0800", "\uffff", "\U00010000", "\U0010ffff", "\x7f"}
 
 // NumTexts is the number palette (JSON spellings).
 var NumTexts = []string{"0", "1", "-1", "2", "3", "4", "5", "10", "1.5", "-2.5", "0.1", "0.2", "0.3", "1.0", "1e0", "10e-1", "0.0", "-0", "100", "1e2", "7", "-7", "9007199254740993", "1e21", "123456789012345678901234567890", "0.5", "2.0", "25E-1", "1E+1", "15E-1", "1E0", "5E-1",
@@ -74,7 +74,7 @@ func Str(t *rapid.T) string {
 		n := rapid.IntRange(0, 6).Draw(t, "slen")
 		rs := make([]rune, n)
 		for i := range rs {
-			rs[i] = Pick(t, "r", []rune{'a', 'b', 'c', 'é', 'ß', '日', '😀', ' ', 'A', '0', '́', '"', '\'', '\\', '`'})
+			rs[i] = Pick(t, "r", []rune{'a', 'b', 'c', 'é', 'ß', '日', '😀', ' ', 'A', '0', '́', '"', '\'', '\\', '`', 0x7f, 0x80, 0x7ff, 0x800, 0xd7ff, 0xe000, 0xffff, 0x10000, 0x10ffff})
 		}
 		return string(rs)
 	}
@@ -127,6 +127,23 @@ func Value(t *rapid.T, cfg DocCfg, depth int) jv.Val {
 // records with shared keys" or an array of arrays.
 func Array(t *rapid.T, cfg DocCfg, depth int) jv.Val {
 	n := rapid.IntRange(0, cfg.MaxFan).Draw(t, "alen")
+	if Chance(t, "longarray", 1, 40) {
+		// long arrays of scalars (and a few records): implementations switch
+		// algorithms and buffer strategies at lengths such as 12, 20, 32, 64, 128
+		n = Pick(t, "longlen", []int{13, 21, 33, 63, 64, 65, 100, 129, 257})
+		a := make([]jv.Val, n)
+		for i := range a {
+			switch {
+			case Chance(t, "longrec", 1, 8):
+				a[i] = jv.VObj([]jv.Member{{K: Key(t), V: jv.VInt(int64(i))}})
+			case Chance(t, "longnull", 1, 10):
+				a[i] = jv.VNull()
+			default:
+				a[i] = jv.VInt(int64(rapid.IntRange(0, 9).Draw(t, "longval")))
+			}
+		}
+		return jv.VArr(a)
+	}
 	a := make([]jv.Val, n)
 	switch rapid.IntRange(0, 5).Draw(t, "ashape") {
 	case 0, 1: // records sharing keys
